@@ -14,6 +14,14 @@ def answer (line : String) : String :=
       | some o => o.show
       | none => "outside-domain"
     | none => "bad-op"
+  | ["spec.seq", h] =>
+    match bytesOfHex h with
+    | some data =>
+      match Syntax.spellSeq data with
+      | some [] => "<nothing>"
+      | some os => " | ".intercalate (os.map Syntax.Obj.show)
+      | none => "outside-domain"
+    | none => "bad-op"
   | ["model.obj", b, h] =>
     match b.toNat?, bytesOfHex h with
     | some b, some data =>
